@@ -172,6 +172,9 @@ func main() {
 
 	// ---- write replay vectors ----
 	rdir := filepath.Join(*verif, "replays", prop)
+	if *only == "" {
+		os.RemoveAll(rdir)
+	}
 	os.MkdirAll(rdir, 0o755)
 	type cand struct {
 		file string
